@@ -88,6 +88,7 @@ fn eval_y(seed: u64, rules: &[Rule]) -> (String, String, String) {
     }
 }
 
+const TAG_SHAPES: bool = false;
 fn main() {
     quiet_panics();
     let mut out = Out::new();
@@ -112,7 +113,7 @@ fn main() {
             let mut rng = Rng::new(seed ^ 0xC07 ^ if EXTRAS { 0xE } else { 0 });
             let ngram = if thorough { 20000 } else { 2500 };
             for gi in 0..ngram {
-                let cfg = GenCfg { extras: EXTRAS, guarded: true, stack_ops: true, tags: EXTRAS && gi % 3 == 0, max_rules: 5, max_depth: 5, builtin_names: false };
+                let cfg = GenCfg { extras: EXTRAS, guarded: true, stack_ops: true, tags: EXTRAS && gi % 3 == 0, max_rules: 5, max_depth: 5, builtin_names: false, tag_shapes: TAG_SHAPES };
                 let rules: Vec<Rule> = gen_grammar(&mut rng, &cfg).into_iter().map(|mut r| { fn fix(e: &mut Expr) { use Expr::*; match e { RepExact(x, n) => { if *n == 0 { *n = 1; } fix(x) } RepMax(x, n) => { if *n == 0 { *n = 1; } fix(x) } RepMinMax(x, _, n) => { if *n == 0 { *n = 1; } fix(x) } RepMin(x, _) | PosPred(x) | NegPred(x) | Opt(x) | Rep(x) | RepOnce(x) | Push(x) => fix(x), Seq(a, b) | Choice(a, b) => { fix(a); fix(b) } Skip(_) => *e = Ident("ANY".into()),
                         #[cfg(feature = "extras")]
                         NodeTag(x, _) => fix(x),
